@@ -413,6 +413,9 @@ func (h *c16Hist) craft(st c16Step) {
 
 // step executes one registration, evaluates the monitors, emits the correspondence case
 func (h *c16Hist) step(op *c16Op) (string, *c16Obs) {
+	if op.Kind == "Init" {
+		return h.stepInit(op)
+	}
 	r, w := h.r, h.w
 	// glue, computed with Go's and the repo's own functions
 	norm := strings.ReplaceAll(strings.ToLower(op.Name), " ", "")
@@ -568,16 +571,7 @@ func (h *c16Hist) step(op *c16Op) (string, *c16Obs) {
 			h.finding("C16/register/serviceable-request-refused", fmt.Sprintf("a funded request for a name that is %s at height %d was refused", shape, op.Height))
 		}
 	}
-	// every name that was live before the step keeps its owner, unless its owner registered it
-	for i := range pre.Names {
-		pn := &pre.Names[i]
-		if op.Height < pn.Expires {
-			qn := post.name(pn.Idx)
-			if qn == nil || qn.Owner != pn.Owner {
-				h.finding("C16/register/live-name-reassigned", "a name that was live before the step has another owner after it")
-			}
-		}
-	}
+	h.liveNamesKept(&pre, &post, op.Height, "register")
 	// history level: a registration bought earlier in this history protects the name until its term ends
 	if out == OutOk && parseOK && senderOK {
 		until := new(big.Int).Add(H, term_)
@@ -586,14 +580,89 @@ func (h *c16Hist) step(op *c16Op) (string, *c16Obs) {
 		}
 		h.track[idx] = c16Track{owner: canon, until: until}
 	}
-	for k, t := range h.track {
-		if H.Cmp(t.until) < 0 {
-			qn := post.name(k)
-			if qn == nil || qn.Owner != t.owner {
-				h.finding("C16/history/paid-term-not-honoured", "a name registered earlier in the history changed owner before its paid term ended")
+	h.termsHonoured(&post, H)
+	return out, &post
+}
+
+// every name that was live before the step keeps its owner and its expiry does not move backwards
+func (h *c16Hist) liveNamesKept(pre, post *c16Obs, height int64, kind string) {
+	for i := range pre.Names {
+		pn := &pre.Names[i]
+		if height < pn.Expires {
+			qn := post.name(pn.Idx)
+			if qn == nil || qn.Owner != pn.Owner {
+				h.finding("C16/"+kind+"/live-name-reassigned", fmt.Sprintf("%s was live before the step (owner %s, until %d) and has another owner after it", pn.Idx, pn.Owner, pn.Expires))
+			} else if qn.Expires < pn.Expires {
+				h.finding("C16/"+kind+"/live-name-shortened", fmt.Sprintf("%s was live until %d before the step and runs only until %d after it", pn.Idx, pn.Expires, qn.Expires))
 			}
 		}
 	}
+}
+
+// history level: a term bought (or handed out) earlier in this history protects the name until it ends
+func (h *c16Hist) termsHonoured(post *c16Obs, H *big.Int) {
+	for k, t := range h.track {
+		if H.Cmp(t.until) < 0 {
+			qn := post.name(k)
+			if qn == nil || qn.Owner != t.owner || big.NewInt(qn.Expires).Cmp(t.until) < 0 {
+				h.finding("C16/history/paid-term-not-honoured", fmt.Sprintf("%s, registered earlier in the history by %s until %s, changed owner or term before that term ended", k, t.owner, t.until))
+			}
+		}
+	}
+}
+
+const c16InitTerm = 5733818
+
+// stepInit executes one MsgInit (the other handler that writes name records), evaluates the monitors and emits
+// the correspondence case
+func (h *c16Hist) stepInit(op *c16Op) (string, *c16Obs) {
+	r, w := h.r, h.w
+	w.e.At(op.Height, T0)
+	m := &rnstypes.MsgInit{Creator: op.Creator}
+	basicOK := m.ValidateBasic() == nil
+	_, already := w.e.App.RnsKeeper.GetInit(w.e.Ctx, op.Creator)
+	gen := rnstypes.MakeName(int(op.Height), op.Height)
+	nameOK := !strings.Contains(gen, ".") && len(gen) >= 6
+	idx := gen + ".jkl"
+	pre := w.observe()
+	res := w.e.Run(m)
+	out := res.Out
+	post := w.observe()
+	nm := "None"
+	if nameOK {
+		nm = "(Some " + cN(w.ids.idxID(idx)) + ")"
+	}
+	opTerm := fmt.Sprintf("{| i_basic_ok := %s; i_fresh := %s; i_name := %s; i_sender := %s; i_data := %s; i_height := %s |}",
+		cBool(basicOK), cBool(!already), nm, cN(w.ids.partyID(op.Creator)), cN(w.ids.dataID("{}")), cZ(op.Height))
+	term := fmt.Sprintf("InitC %s %s %s %s %s %s %s %s", c16Names(pre.Names), c16Prims(pre.Primary), c16Bank(pre.Bank), opTerm, c16OutTerm(out),
+		c16Names(post.Names), c16Prims(post.Primary), c16Bank(post.Bank))
+	r.Case("hist", term, map[string]interface{}{"history": h.label, "step": len(h.trace), "op": op, "out": out, "err": res.Err, "pre": pre, "post": post})
+	h.trace = append(h.trace, map[string]interface{}{"op": op, "out": out, "err": res.Err, "generated": idx, "post_names": post.Names})
+	preRec := pre.name(idx)
+	shape := "free"
+	if preRec != nil {
+		shape = "lapsed"
+		if op.Height < preRec.Expires {
+			shape = "live"
+		}
+	}
+	r.Hist("kind", "Init")
+	r.Hist("outcome", out)
+	r.Hist("init-name-state", shape)
+	r.Count(fmt.Sprintf("Init|%s|%s|%d|%s|%v|%d", op.Creator, shape, op.Height, out, already, len(pre.Names)), out == OutOk || preRec != nil)
+	H := big.NewInt(op.Height)
+	// the property says nothing about which name an initialisation hands out, for how long, or whether it is served:
+	// only that no live name is taken or shortened by it (below), and that terms granted earlier are honoured
+	if out == OutOk {
+		for i := range post.Names {
+			qn := &post.Names[i]
+			if pn := pre.name(qn.Idx); (pn == nil || *pn != *qn) && qn.Owner == op.Creator && op.Height < qn.Expires {
+				h.track[qn.Idx] = c16Track{owner: op.Creator, until: big.NewInt(qn.Expires)}
+			}
+		}
+	}
+	h.liveNamesKept(&pre, &post, op.Height, "init")
+	h.termsHonoured(&post, H)
 	return out, &post
 }
 
@@ -697,6 +766,19 @@ func c16Scripted() [][]c16Step {
 		odd = append(odd, c16Step{Op: &c16Op{Kind: "Keeper", Creator: cr, Name: "fine.jkl", Data: "odd", Years: 1, Height: 31}}, c16Reg(cr, "fine.jkl", 1, 31))
 	}
 	hs = append(hs, odd)
+	// MsgInit hands out a free generated name: never one that is live (paid for or handed out in the same block),
+	// once per account, under the spelling the sender used
+	initAt := func(who string, height int64) c16Step { return c16Step{Op: &c16Op{Kind: "Init", Creator: who, Height: height}} }
+	cand := func(k int, height int64) string { return rnstypes.MakeName(int(height)+k, height) + ".jkl" }
+	var traps []c16Step
+	for k := 1; k <= 6; k++ { // the neighbours of the name of height 700 are all paid for by A
+		traps = append(traps, c16Reg(A, cand(k, 700), 2, 10))
+	}
+	traps = append(traps, initAt(B, 700), initAt(C, 700), initAt(whale, 700), initAt(poor, 700), initAt(B, 700), initAt(C, 701), initAt(C, 702), initAt(whale, 1700), initAt(UA, 701),
+		initAt(A, 701), c16Reg(B, cand(0, 700), 1, 703), c16Reg(C, cand(0, 700), 1, 703), c16Reg(C, cand(0, 700), 1, 700+c16InitTerm), initAt(poor, 700+c16InitTerm))
+	hs = append(hs, traps)
+	hs = append(hs, []c16Step{c16Reg(A, cand(0, 900), 3, 20), initAt(B, 900), initAt(B, 901), initAt(B, 901), c16Reg(A, cand(0, 902), 1, 901), initAt(C, 902), initAt(C, 1902+c16Bpy),
+		initAt("garbage", 5), initAt("", 5), initAt(strings.ToUpper(C[:10])+C[10:], 5)})
 	// crafted records: Expires at the int64 boundary, Locked / Subdomains / Data that a renewal resets,
 	// a record whose Value is the upper-case spelling (a different owner for the handler), stale primary names
 	max := int64(math.MaxInt64)
@@ -814,6 +896,16 @@ func c16Random(p *PRNG, n int) []c16Step {
 		}
 		if p.Chance(1, 30) {
 			steps = append(steps, c16Step{Prim: &[3]string{PickOne(p, accts), PickOne(p, []string{"ghost", strings.ToLower(nm[:len(nm)-4])}), nm[len(nm)-3:]}})
+		}
+		if p.Chance(1, 7) { // an initialisation at this height, sometimes with its generated name (or a neighbour) paid for first
+			if p.Chance(1, 2) {
+				trap := rnstypes.MakeName(int(h)+p.Intn(5), h) + ".jkl"
+				steps = append(steps, c16Step{Op: &c16Op{Kind: "RegisterName", Creator: PickOne(p, accts), Name: trap, Data: "{}", Years: 1, Height: h}})
+			}
+			ni := 1 + p.Intn(5)
+			for j := 0; j < ni; j++ {
+				steps = append(steps, c16Step{Op: &c16Op{Kind: "Init", Creator: accts[(p.Intn(5)+j)%5], Height: h}})
+			}
 		}
 		steps = append(steps, c16Step{Op: op})
 		if y >= 1 && y <= 100 {
